@@ -24,7 +24,7 @@ from ..common import rng_for, b2j
 
 LEVEL = "exploration"
 SHARDS = {"quick": 8, "thorough": 16}
-REQUIRED = ("construct_probes_judged", "aba_same_process_steps", "definitions_probed", "cache_hits_observed", "cache_rewrites_observed", "same_length_variant_switches",
+REQUIRED = ("direction_ladder_histories", "construct_probes_judged", "aba_same_process_steps", "definitions_probed", "cache_hits_observed", "cache_rewrites_observed", "same_length_variant_switches",
             "stale_pyc_situations", "orphan_pyc_situations", "seeded_foreign_cache_situations", "same_process_redefinitions",
             "bytecode_on_definitions", "bytecode_off_definitions", "earlier_classes_reprobed", "option_only_switches")
 MIN_NONTRIVIAL = 20
@@ -164,6 +164,14 @@ def run_history(run, rng, pool, scratch, hid, sources, nsteps):
         b = by_tag[a.twin] if getattr(a, "twin", None) and rng.random() < 0.6 else rng.choice([u for u in pool if u.tag != a.tag])
         forced = [(a, False), (b, True), (a, True)] + ([(b, True)] if rng.random() < 0.4 else [])
         nsteps = max(nsteps, len(forced) + 1)
+    elif rng.random() < 0.35:
+        # "direction ladder" inside one process: declaration X with both directions generated, then the same-named
+        # declaration Y with one direction only, then Y with both (what the first X left behind must not serve Y)
+        x, y = rng.choice([("i1i2", "i2i1"), ("i2i1", "i1i2")])
+        one = by_tag["%s-%s" % (y, rng.choice(["packonly", "unpackonly"]))]
+        forced = [(by_tag[x], False), (one, True), (by_tag[y], True)] + ([(by_tag[x], True)] if rng.random() < 0.5 else [])
+        nsteps = max(nsteps, len(forced) + 1)
+        run.count("direction_ladder_histories")
     for s in range(nsteps):
         # choose variant: bias to twins (same-length) and option-only changes of the previous one
         if forced:
